@@ -159,6 +159,9 @@ func (r *BPlusKVPairReader) Read(buffer []*storage.KVPair) (n int, err error) {
 			return false
 		}
 		key := i.(KVItem).Key
+		if key[0] != r.prefix {
+			return false // past the last entry of this table
+		}
 
 		if bytes.Compare(key[:1], r.lastKey[:1]) == 0 && bytes.Compare(key, r.lastKey) != 0 {
 			buffer[n] = &storage.KVPair{key[1:], i.(KVItem).Value}
